@@ -20,6 +20,11 @@ def run(ctx, L, tier):
     to_literal(ctx, L)
     name_tables(ctx, L)
     evaluator_state(ctx, L)
+    from . import c20
+    c20.shared_state(ctx, L)        # no state that survives from one compiled file / call to the next (module, class, closure, default argument)
+    from . import c16
+    c16.cache_and_cycle(ctx, L)      # which file an include names decides which constants an expression sees
+    c16.dir_stack(ctx, L)
     return sorted(set(o.rule for o in L.obligations))
 
 
